@@ -57,7 +57,7 @@ for cls, mod in (('Server', 'server'), ('AsyncServer', 'async_server')):
     c.requires('implies(sid in self.sockets, sock_wf(self.sockets[sid]))', 'socket-wf')
     c.requires('0 <= pkt.packet_type and pkt.packet_type <= 6', 'packet-type')
     c.requires('packet_ok(pkt)', 'packet-wf')
-    c.ensures('dead-id-is-silent-noop', 'implies(old(' + DEAD + '), events == old(events) and '
+    c.ensures('dead-id-is-silent-noop', 'implies(old(' + DEAD + '), events == old(events) and hresults == old(hresults) and '
               'spawned == old(spawned) and (self.sockets == old(self.sockets) or '
               'self.sockets == dict_del(old(self.sockets), sid)))', props=['C16'])
     c.ensures('enqueued-on-that-session-once', 'implies(not old(' + DEAD + ') and '
@@ -67,7 +67,7 @@ for cls, mod in (('Server', 'server'), ('AsyncServer', 'async_server')):
               props=['C03'])
     c.modifies('self.sockets', 'Socket.closing', 'Socket.closed', 'Queue.items', 'Queue.unf',
                'Queue.taken', 'Queue.accepted', 'Queue.put_none', 'Queue.taken_none',
-               'ghost.events', 'ghost.now', 'ghost.spawned')
+               'ghost.events', 'ghost.hresults', 'ghost.now', 'ghost.spawned')
 
 # ------------------------------------------------------------------------------ _handle_connect
 REG.contract('base_socket.BaseSocket.__init__').inline = True
@@ -98,6 +98,14 @@ c.ensures('connect-handler-first-and-once',
           "ev_handler(events[len(old(events))]) == self.handlers['connect'] and "
           "ev_arg0(events[len(old(events))]) == " + NEW_SID, props=['C05', 'C11'])
 NEWQ = 'self.sockets[' + NEW_SID + '].queue'
+# the accept / reject decision is checked where it is taken: the connection proceeds only for
+# None / True (by identity: 1 or 1.0 are JSON values and must be rejected), and is discarded
+# only otherwise; `ret` is what the connect handler returned, or False when it raised
+# (postconditions of _trigger_event)
+c.check_before("if transport == 'websocket':", 'accepted-only-for-None-or-True',
+               'connect_accepted(ret)', props=['C11'])
+c.check_before('del self.sockets[sid]', 'rejected-only-for-other-values',
+               'not connect_accepted(ret)', props=['C11'])
 c.ensures('rejected-id-never-addressable', "implies(transport == 'polling' and "
           "result['status'] == '401 UNAUTHORIZED', " + NEW_SID + " not in self.sockets)",
           props=['C11', 'C16'])
@@ -126,7 +134,7 @@ c.ensures('no-response-sent-by-an-http-answer', "implies(isinstance(result, dict
 c.ensures('polling-accept-or-reject-adds-no-other-event', "implies(transport == 'polling', "
           "len(events) == len(old(events)) + 1)", props=['C05'])
 c.modifies('self.sockets', 'self.sequence_number', 'self.start_service_task',
-           'self.service_task_handle', 'ghost.csprng', 'ghost.events', 'ghost.spawned',
+           'self.service_task_handle', 'ghost.csprng', 'ghost.events', 'ghost.hresults', 'ghost.spawned',
            'ghost.now', 'ghost.ws_log', 'ghost.received', 'ghost.sr_log', 'ghost.sr_headers',
            'Packet.encode_cache')      # the new socket, its queue and packets are fresh objects
 
@@ -134,12 +142,12 @@ c.modifies('self.sockets', 'self.sequence_number', 'self.start_service_task',
 TABLE_WF = 'all_values(self.sockets, lambda s: sock_wf(s))'
 SRV_MOD = ['self.sockets', 'Socket.closing', 'Socket.closed', 'Queue.items', 'Queue.unf',
            'Queue.taken', 'Queue.accepted', 'Queue.put_none', 'Queue.taken_none',
-           'ghost.events', 'ghost.now', 'ghost.spawned']
+           'ghost.events', 'ghost.hresults', 'ghost.now', 'ghost.spawned']
 c = REG.contract('server.Server.disconnect', props=['C05', 'C15', 'C16'])
 c.param('self', Ref('Server')).param('sid', [NONE, STR])
 c.requires(TABLE_WF, 'sockets-wf')
 c.ensures('dead-id-is-silent-noop', 'implies(sid is not None and old(' + DEAD + '), '
-          'events == old(events) and (self.sockets == old(self.sockets) or '
+          'events == old(events) and hresults == old(hresults) and (self.sockets == old(self.sockets) or '
           'self.sockets == dict_del(old(self.sockets), sid)))', props=['C16'])
 c.ensures('live-session-closed-and-removed', 'implies(sid is not None and not old(' + DEAD + '), '
           'sid not in self.sockets and old(self.sockets)[sid].closing and '
@@ -155,7 +163,7 @@ c.modifies(*SRV_MOD)
 c.loop(0, index='i', invariants=[('events-only-grow', 'grows(events, old(events))'),
                                   ('sockets-wf', TABLE_WF)],
        modifies=['Socket.closing', 'Socket.closed', 'Queue.items', 'Queue.unf', 'Queue.taken',
-                 'Queue.accepted', 'Queue.put_none', 'Queue.taken_none', 'ghost.events',
+                 'Queue.accepted', 'Queue.put_none', 'Queue.taken_none', 'ghost.events', 'ghost.hresults',
                  'ghost.now', 'ghost.spawned'])
 
 for cls, mod in (('Server', 'server'), ('AsyncServer', 'async_server')):
@@ -163,7 +171,7 @@ for cls, mod in (('Server', 'server'), ('AsyncServer', 'async_server')):
     c.param('self', Ref(cls)).param('sid', STR).param('data', ANY)
     c.requires('implies(sid in self.sockets, sock_wf(self.sockets[sid]))', 'socket-wf')
     c.requires('api_payload(4, data)', 'api-payload')
-    c.ensures('dead-id-is-silent-noop', 'implies(old(' + DEAD + '), events == old(events) and '
+    c.ensures('dead-id-is-silent-noop', 'implies(old(' + DEAD + '), events == old(events) and hresults == old(hresults) and '
               'spawned == old(spawned) and (self.sockets == old(self.sockets) or '
               'self.sockets == dict_del(old(self.sockets), sid)))', props=['C16'])
     c.ensures('one-message-enqueued-on-that-session', 'implies(not old(' + DEAD + ') and '
@@ -177,7 +185,7 @@ for cls, mod in (('Server', 'server'), ('AsyncServer', 'async_server')):
               '.data == data)', props=['C03'])
     c.modifies('self.sockets', 'Socket.closing', 'Socket.closed', 'Queue.items', 'Queue.unf',
                'Queue.taken', 'Queue.accepted', 'Queue.put_none', 'Queue.taken_none',
-               'ghost.events', 'ghost.now', 'ghost.spawned')
+               'ghost.events', 'ghost.hresults', 'ghost.now', 'ghost.spawned')
     for nm in ('get_session', 'save_session'):
         c = REG.contract('%s.%s.%s' % (mod, cls, nm), props=['C16'])
         c.param('self', Ref(cls)).param('sid', STR)
@@ -201,7 +209,7 @@ for cls, mod in (('Server', 'server'), ('AsyncServer', 'async_server')):
 
 # ------------------------------------------------------------------------------- handle_request
 from .c_base_server import CFG_OK  # noqa: E402
-NOTHING = ("self.sockets == old(self.sockets) and events == old(events) and "
+NOTHING = ("self.sockets == old(self.sockets) and events == old(events) and hresults == old(hresults) and "
            "spawned == old(spawned) and csprng == old(csprng) and received == old(received) and "
            "unchanged('Queue.items', 'Queue.taken', 'Queue.accepted', 'Queue.unf', "
            "'Queue.put_none', 'Queue.taken_none', 'BaseSocket.closing', "
@@ -245,7 +253,7 @@ c.modifies('self.sockets', 'self.sequence_number', 'self.start_service_task',
            'self.service_task_handle', 'Socket.closing', 'Socket.closed', 'Socket.connected',
            'Socket.upgraded', 'Socket.upgrading', 'Queue.items', 'Queue.unf', 'Queue.taken',
            'Queue.accepted', 'Queue.put_none', 'Queue.taken_none', 'Packet.encode_cache',
-           'ghost.csprng', 'ghost.events', 'ghost.spawned', 'ghost.now', 'ghost.ws_log',
+           'ghost.csprng', 'ghost.events', 'ghost.hresults', 'ghost.spawned', 'ghost.now', 'ghost.ws_log',
            'ghost.received', 'ghost.reads', 'ghost.sr_log', 'ghost.sr_headers')
 c.ghost_before('if self.http_compression and', 'r0', 'r')
 c.loop(1, index='i', invariants=[('status-kept', "r['status'] == r0['status']")],
